@@ -11,6 +11,14 @@ class Boom(Exception):
         self.index = index
 
 
+class FatalBoom(BaseException):
+    """Raised by a failing task: not an Exception subclass (like KeyboardInterrupt / SystemExit raised by user code)."""
+
+    def __init__(self, index):
+        BaseException.__init__(self, index)
+        self.index = index
+
+
 class IterBoom(Exception):
     """Raised by the input iterable."""
 
@@ -26,6 +34,8 @@ def work(d, run, i, sleep_ms, fail, gate=None, gate_wait=30):
         deadline = time.time() + gate_wait
         while not os.path.exists(gate) and time.time() < deadline:
             time.sleep(0.005)
+    if fail == "base":
+        raise FatalBoom(i)
     if fail:
         raise Boom(i)
     return ("r", run, i)
